@@ -133,16 +133,7 @@ theorem C17_execute_safe (S : Segmenter) (U : UData) (cfg : EdCfg) (hv : ∀ t, 
     case lineDown n => exact safe_editMove S U cfg (lmsafe_moveToLineDown S U n _) h
     case beginningOfBuffer => exact safe_editMove S U cfg (lmsafe_moveBufferStart S U) h
     case endOfBuffer => exact safe_editMove S U cfg (lmsafe_moveBufferEnd S U) h
-    case viFirstPrint =>
-      refine wp_mono (safe_editMove S U cfg (lmsafe_moveHome S U) h) ?_ (fun _ _ h => h)
-      intro _ s1 h1
-      simp only [wp_getLine]
-      split
-      · split
-        · simp only [wp_bind, wp_pure]
-          exact safe_editMove S U cfg (lmsafe_moveToNextWord S U _ _ _) h1
-        · exact h1
-      · exact h1
+    case viFirstPrint => exact safe_editMove S U cfg (lmsafe_moveToFirstPrint S U) h
     all_goals exact h
   case selfInsert n c =>
     unfold execute; simp only [wp_bind, wp_pure]
@@ -318,39 +309,67 @@ theorem C17_nextCmd_keeps_wf (S : Segmenter) (U : UData) (cfg : EdCfg) (fuel : N
     (s s' : Ed) (c : Cmd) (h : EdWF cfg s) (hr : nextCmd S U cfg fuel sea iep s = .ok (c, s')) : EdWF cfg s' :=
   h.of_coreNC ((keeps_nextCmd S U cfg fuel sea iep).ok hr)
 
-/-- the obligations of the whole-read theorem that are NOT discharged (`next_cmd` is: `C17_next_cmd`):
-    * `undo`: `Undo` is safe from the read invariant (needs the C05 log invariant carried through
-      every command and the abort paths of the sub-loops);
-    * `yankPop`: `YankPop` is safe (cross-step fact "the cursor still stands right after the yanked
-      text"; false in vi mode after `p`/`P` — there it is reachable only through an application
-      binding of `YankPop`);
-    * `count`: a `ReplaceChar` with a count above 65535 is safe — counts are `RepeatCount = u16` in
-      the code, so this case does not exist there; in the model it needs the keymap's bound on
-      counts carried to the command (`ReplaceChar` with `n ≤ 65535` is proved: `rsafe_replaceChar`). -/
-structure C17_Open (S : Segmenter) (U : UData) (cfg : EdCfg) : Prop where
-  undo : ∀ n s, RdInv cfg s → RSafe cfg (execute S U cfg (.undo n)) s
-  yankPop : ∀ s, RdInv cfg s → RSafe cfg (execute S U cfg .yankPop) s
-  count : ∀ n c s, 65535 < n → RdInv cfg s → RSafe cfg (execute S U cfg (.replaceChar n c)) s
+/-- the obligations of the whole-read theorem that are NOT discharged, stated for a cross-step
+    invariant `J` that is left abstract: the facts about the undo log and the kill ring which the
+    read invariant `RdInv` does not hold and which `Undo` / `YankPop` need (intended: "the undo log
+    can be undone on the line" and, in emacs mode, `PopOK`: "the text of the last yank stands right
+    before the cursor").  (`next_cmd` is discharged: `C17_next_cmd`; the bound on `ReplaceChar`
+    counts and "no `YankPop` in vi mode" are: `C17_next_cmd_returns`.)
+    * `undo`: from `RdInv` and `J`, `Undo` does not panic and re-establishes both.  For
+      `J := UndoLogInv` this is `C17_undo_safe_of_log`; but `UndoLogInv` is not the right `J` in vi
+      mode: there the abort of an incremental search can leave a stale entry (finding D47:
+      known_findings.json, DESIGN.md C05; `C05_abort_transparent_refuted`);
+    * `yankPop`: the same for `YankPop` in EMACS mode (`C17_yankPop_safe_of_popOK` is the no-panic
+      half for `J := PopOK`);
+    * `other`: every other command keeps `J`; and so do the steps of a read that are not commands
+      (`init` … `insert`).
+    With `J := fun _ => True` the first two fields are FALSE (there are `RdInv` states whose log does
+    not fit the line), which is why they are not stated for `RdInv` alone. -/
+structure C17_Open (S : Segmenter) (U : UData) (cfg : EdCfg) (J : Ed → Prop) : Prop where
+  undo : ∀ n s, RdInv cfg s → J s →
+    wp (execute S U cfg (.undo n)) (fun _ s' => RdInv cfg s' ∧ J s') PE s
+  yankPop : cfg.vi = false → ∀ s, RdInv cfg s → J s →
+    wp (execute S U cfg .yankPop) (fun _ s' => RdInv cfg s' ∧ J s') PE s
+  other : ∀ cmd, (∀ n, cmd ≠ .undo n) → cmd ≠ .yankPop → CmdI cfg cmd → KeepsJ J (execute S U cfg cmd)
+  init : ∀ ring input, J (initEd cfg ring input)
+  initText : ∀ b p, KeepsJ J (lb S U (LB.update S U b p))
+  refresh : KeepsJ J (refreshLine S U cfg)
+  next : ∀ fuel, KeepsJ J (nextCmd S U cfg fuel false false)
+  reset : ∀ s, J s → J { s with ring := s.ring.reset }
+  pre : ∀ fuel cmd, KeepsJ J (preCmds S U cfg fuel cmd)
+  susp : ∀ s, J s → J { s with suspends := s.suspends + 1 }
+  nextChar : KeepsJ J nextChar
+  insert : ∀ c, KeepsJ J (editInsert S U cfg c 1)
 
-/-- every `execute` step is safe from the read invariant, given the open obligations; the segmenter
+/-- every `execute` step on a command that `next_cmd` can return (`CmdI`) is safe from the read
+    invariant and the cross-step invariant, given the open obligations; the segmenter
     is stable (cutting a text at its own cluster boundaries does not change the clusters: true of
     the UAX #29 segmenter, `uaxSeg_stable`) -/
 theorem C17_exec_safe (S : Segmenter) (U : UData) (cfg : EdCfg) (hS : S.Stable) (hv : ∀ t, cfg.validator t ≠ .panic)
-    (hnp : cfg.hinterPanicAt = none) (hind : cfg.indentSize ≤ 255) (ho : C17_Open S U cfg) :
-    ExecSafe S U cfg := by
-  intro cmd s h
+    (hnp : cfg.hinterPanicAt = none) (hind : cfg.indentSize ≤ 255) {J : Ed → Prop} (ho : C17_Open S U cfg J) :
+    RdStep S U cfg J := by
+  have both : ∀ {m : EM Status} {s : Ed}, RSafe cfg m s → wp m (fun _ s' => J s') (fun _ _ => True) s →
+      wp m (fun _ s' => RdInv cfg s' ∧ J s') PE s := by
+    intro m s h1 h2
+    unfold RSafe wp at *
+    cases hm : m s with
+    | error e => rw [hm] at h1; exact h1
+    | ok r => rw [hm] at h1 h2; exact ⟨h1, h2⟩
+  refine ⟨?_, ho.init, ho.initText, ho.refresh, ho.next, ho.reset, ho.pre, ho.susp, ho.nextChar, ho.insert⟩
+  intro cmd s hci h hj
   by_cases hc : C17_covered cmd = true
   · have hu : IsUndo cmd = false := by
       cases cmd <;> first | rfl | (simp [C17_covered] at hc)
-    exact rsafe_of cfg (C17_execute_safe S U cfg hv hnp hind cmd hc s h.1) (keeps_grow_execute S U cfg cmd hu)
-      (keeps_inp_execute S U cfg cmd) h
+    refine both (rsafe_of cfg (C17_execute_safe S U cfg hv hnp hind cmd hc s h.1) (keeps_grow_execute S U cfg cmd hu)
+      (keeps_inp_execute S U cfg cmd) h) (ho.other cmd ?_ ?_ hci s hj)
+    · intro n hn; subst hn; simp [C17_covered] at hc
+    · intro hn; subst hn; simp [C17_covered] at hc
   · cases cmd <;> simp only [C17_covered, not_true_eq_false] at hc
-    case undo n => exact ho.undo n s h
-    case yankPop => exact ho.yankPop s h
+    case undo n => exact ho.undo n s h hj
+    case yankPop => exact ho.yankPop hci s h hj
     case replaceChar n c =>
-      by_cases hn : n ≤ 65535
-      · exact rsafe_replaceChar S U cfg hS hnp c n hn h
-      · exact ho.count n c s (by omega) h
+      exact both (rsafe_replaceChar S U cfg hS hnp c n hci h)
+        (ho.other _ (fun _ hn => by cases hn) (fun hn => by cases hn) hci s hj)
 
 /-- **`ReplaceChar` with a count that fits the code's `RepeatCount`** is safe for a stable
     segmenter: the deleted text has at most `n` clusters, so `RepeatCount::try_from(count).unwrap()`
@@ -392,9 +411,44 @@ theorem C17_next_cmd (S : Segmenter) (U : UData) (cfg : EdCfg) (hnp : cfg.hinter
   · intro c s' hr; rw [hr] at hn; exact hn
   · intro o s' hr; rw [hr] at hn; exact hn
 
+/-- **what `next_cmd` returns** (both modes, any helper): from an input state whose pending numeric
+    argument fits an `i16` and whose remembered command is acceptable (`RI`: true of a fresh read),
+    it returns in such a state, and the command it returns is acceptable (`CmdI`):
+    a `ReplaceChar(n, _)` has `n ≤ 65535` — so `RepeatCount::try_from` in `edit_replace_char` is
+    only ever reached with a count that fits — and in vi mode it is never `YankPop`.  The only
+    assumption is on the application's bindings (`BindsI`): a bound `ReplaceChar` carries a count
+    that fits its type (`RepeatCount = u16`: every value of the real type does), and `YankPop` is not
+    bound in vi mode. -/
+theorem C17_next_cmd_returns (S : Segmenter) (U : UData) (cfg : EdCfg) (hb : BindsI cfg)
+    (fuel : Nat) (sea iep : Bool) (s s' : Ed) (c : Cmd) (h : RI cfg s)
+    (hr : nextCmd S U cfg fuel sea iep s = .ok (c, s')) :
+    RI cfg s' ∧ (∀ n ch, c = .replaceChar n ch → n ≤ 65535) ∧ (cfg.vi = true → c ≠ .yankPop) := by
+  obtain ⟨h1, h2⟩ := (rt_nextCmd S U cfg hb fuel sea iep).h s h c s' hr
+  refine ⟨h1, ?_, ?_⟩
+  · intro n ch hc; subst hc; exact h2
+  · intro hv hc; subst hc
+    have : cfg.vi = false := h2
+    rw [hv] at this; cases this
+
+/-- **the default vi keymaps have no key for `YankPop`**: with no custom binding at all, `next_cmd`
+    never returns it in vi mode -/
+theorem C17_vi_never_yankPop (S : Segmenter) (U : UData) (cfg : EdCfg) (hvi : cfg.vi = true) (hb : cfg.binds = [])
+    (fuel : Nat) (sea iep : Bool) (s s' : Ed) (c : Cmd) (h : RI cfg s)
+    (hr : nextCmd S U cfg fuel sea iep s = .ok (c, s')) : c ≠ .yankPop :=
+  (C17_next_cmd_returns S U cfg (fun b hm => by rw [hb] at hm; cases hm) fuel sea iep s s' c h hr).2.2 hvi
+
+/-- **every command that reaches `execute` is acceptable**: the dispatch loop (completion,
+    incremental search) hands back nothing or a command that `next_cmd` returned -/
+theorem C17_dispatch_returns (S : Segmenter) (U : UData) (cfg : EdCfg) (hb : BindsI cfg) (fuel : Nat) (cmd0 : Cmd)
+    (h0 : CmdI cfg cmd0) (s s' : Ed) (c : Cmd) (h : RI cfg s)
+    (hr : preCmds S U cfg fuel cmd0 s = .ok (some c, s')) : RI cfg s' ∧ CmdI cfg c := by
+  obtain ⟨h1, h2⟩ := (rt_preCmds S U cfg hb fuel cmd0 h0).h s h _ s' hr
+  exact ⟨h1, h2 c rfl⟩
+
 /-- **The only panic of a whole read is D43** — for helpers that do not panic, an indent size that
     fits the code's `u8`, a completer that reports a start on a character boundary at or before the
-    cursor, and GIVEN the open obligations `C17_Open` (`Undo` / `YankPop` / `ReplaceChar`).  If the
+    cursor, acceptable bindings (`BindsI`), and GIVEN the open obligations `C17_Open` for some
+    cross-step invariant `J` (`Undo`, `YankPop` in emacs mode, and that `J` is kept).  If the
     read ends with the panic outcome, the state it ends in has a last insertion longer than 65535
     bytes (and the panic was the re-do of vi's `R`).  Covers `next_cmd` in both modes, every other
     command, circular and list completion, incremental search, the dispatch loop, quoted insert,
@@ -403,19 +457,19 @@ theorem C17_next_cmd (S : Segmenter) (U : UData) (cfg : EdCfg) (hnp : cfg.hinter
 theorem C17_editor_no_panic_partial (S : Segmenter) (U : UData) (cfg : EdCfg) (left right : Text) (inp : Input)
     (hv : ∀ t, cfg.validator t ≠ .panic) (hnp : cfg.hinterPanicAt = none)
     (hcomp : ∀ t p, IsBoundary t (cfg.completer t p).1 ∧ (cfg.completer t p).1 ≤ p)
-    (hind : cfg.indentSize ≤ 255) (hS : S.Stable) (ho : C17_Open S U cfg) :
+    (hind : cfg.indentSize ≤ 255) (hS : S.Stable) (hb : BindsI cfg) {J : Ed → Prop} (ho : C17_Open S U cfg J) :
     (readline S U cfg (KillRing.new 60) left right inp).1 = .panic →
       D43 (readline S U cfg (KillRing.new 60) left right inp).2 :=
-  readline_panic_only_D43 S U cfg ⟨hnp, C17_exec_safe S U cfg hS hv hnp hind ho, hcomp⟩ _ (RingOK.new 60) _ _ _
+  readline_panic_only_D43 S U cfg ⟨hnp, hb, hcomp⟩ (C17_exec_safe S U cfg hS hv hnp hind ho) _ (RingOK.new 60) _ _ _
 
 /-- the same as a no-panic statement: a read that does not end in a D43 state does not panic -/
 theorem C17_editor_no_panic_of_no_D43 (S : Segmenter) (U : UData) (cfg : EdCfg) (left right : Text) (inp : Input)
     (hv : ∀ t, cfg.validator t ≠ .panic) (hnp : cfg.hinterPanicAt = none)
     (hcomp : ∀ t p, IsBoundary t (cfg.completer t p).1 ∧ (cfg.completer t p).1 ≤ p)
-    (hind : cfg.indentSize ≤ 255) (hS : S.Stable) (ho : C17_Open S U cfg)
+    (hind : cfg.indentSize ≤ 255) (hS : S.Stable) (hb : BindsI cfg) {J : Ed → Prop} (ho : C17_Open S U cfg J)
     (hd : ¬ D43 (readline S U cfg (KillRing.new 60) left right inp).2) :
     (readline S U cfg (KillRing.new 60) left right inp).1 ≠ .panic :=
-  fun hp => hd (C17_editor_no_panic_partial S U cfg left right inp hv hnp hcomp hind hS ho hp)
+  fun hp => hd (C17_editor_no_panic_partial S U cfg left right inp hv hnp hcomp hind hS hb ho hp)
 
 /-- every command but vi's `R` (`Replace(ForwardChar 0, None)`, whose redo converts the length of
     the last insertion to a `RepeatCount`) can be re-done whatever the last insertion was -/
